@@ -5,13 +5,33 @@ import CattrsModel.Heap.RefSt3
 namespace CattrsModel.Heap
 open CattrsModel
 
+theorem leafItems_of_ref {cs : List Cell} {k : Nat} {l : Loc} {o : Obj} (h : denote cs k (.ref l) = some o) :
+    leafItems o = none := by
+  obtain ⟨k', c, _, _, hc⟩ := den_ref h
+  cases c <;> simp only [cellDen, Option.map_eq_some_iff] at hc
+  · obtain ⟨_, _, rfl⟩ := hc; rfl
+  · obtain ⟨_, _, rfl⟩ := hc; rfl
+  · obtain ⟨_, _, rfl⟩ := hc; rfl
+  · cases hc; rfl
+
+/-- the argument is not a container: a `str` / `bytes` payload is iterated by the real hooks and by the pure model
+(`stLF` / `stLD`) -- the heap program leaves the modelled fragment (`unmodelled`: the ghost flag `unmod` is set and the
+refinement says nothing); anything else is not iterable and the pure model rejects (`hpure`) -/
 theorem exec_noItems_ref {b : Nat} (w : World) (fuel : Nat) (rec : Rec) (v : HVal) (st : St) (g : Good b st) (k : Nat)
-    (total : Prop) : Outcome b st (exec w fuel rec (noItems v) st) k none total := by
-  unfold noItems
-  split
-  · exact exec_unmodelled_ref w fuel rec st g k total
-  · exact exec_unmodelled_ref w fuel rec st g k total
-  · exact exec_fail_ref w fuel rec st g k total
+    {k' : Nat} {o : Obj} {pure : Option Obj} (hd : denote st.cells k' v = some o)
+    (hpure : leafItems o = none → pure = none)
+    (total : Prop) : Outcome b st (exec w fuel rec (noItems v) st) k pure total := by
+  cases v with
+  | ref l =>
+    rw [hpure (leafItems_of_ref hd)]
+    unfold noItems
+    exact exec_fail_ref w fuel rec st g k total
+  | leaf o' =>
+    rw [denote_leaf] at hd; cases hd
+    cases o with
+    | str s => unfold noItems; exact exec_unmodelled_ref w fuel rec st g k total
+    | bytes h => unfold noItems; exact exec_unmodelled_ref w fuel rec st g k total
+    | _ => rw [hpure rfl]; unfold noItems; exact exec_fail_ref w fuel rec st g k total
 
 /-- iterating the argument -/
 theorem iter_cases {b : Nat} {st : St} (g : Good b st) {v : HVal} (hv : ArgOld b v) (hp : Proper v) {k : Nat} {o : Obj}
